@@ -616,6 +616,49 @@ fn rename_objects(merge_module: &mut Module, rename_table: &HashMap<String, Stri
                 rename_table,
             );
         }
+        // MODULE.CHARACTERISTIC.VIRTUAL_CHARACTERISTIC
+        if let Some(virtual_characteristic) = &mut characteristic.virtual_characteristic {
+            rename_item_list(
+                &mut virtual_characteristic.characteristic_list,
+                rename_table,
+            );
+        }
+        // MODULE.CHARACTERISTIC.MAP_LIST
+        if let Some(map_list) = &mut characteristic.map_list {
+            rename_item_list(&mut map_list.name_list, rename_table);
+        }
+        // MODULE.CHARACTERISTIC.COMPARISON_QUANTITY
+        if let Some(comparison_quantity) = &mut characteristic.comparison_quantity {
+            if let Some(newname) = rename_table.get(&comparison_quantity.name) {
+                comparison_quantity.name = newname.to_owned();
+            }
+        }
+    }
+    // MODULE.MEASUREMENT
+    for measurement in &mut merge_module.measurement {
+        // MODULE.MEASUREMENT.VIRTUAL
+        if let Some(var_virtual) = &mut measurement.var_virtual {
+            rename_item_list(&mut var_virtual.measuring_channel_list, rename_table);
+        }
+    }
+    // MODULE.TYPEDEF_AXIS
+    for typedef_axis in &mut merge_module.typedef_axis {
+        // MODULE.TYPEDEF_AXIS.input_quantity
+        if let Some(newname) = rename_table.get(&typedef_axis.input_quantity) {
+            typedef_axis.input_quantity = newname.to_owned();
+        }
+    }
+    // MODULE.INSTANCE
+    for instance in &mut merge_module.instance {
+        // MODULE.INSTANCE.OVERWRITE
+        for overwrite in &mut instance.overwrite {
+            // MODULE.INSTANCE.OVERWRITE.INPUT_QUANTITY
+            if let Some(input_quantity) = &mut overwrite.input_quantity {
+                if let Some(newname) = rename_table.get(&input_quantity.name) {
+                    input_quantity.name = newname.to_owned();
+                }
+            }
+        }
     }
     // MODULE.TYPEDEF_CHARACTERISTIC
     for typedef_characteristic in &mut merge_module.typedef_characteristic {
@@ -715,9 +758,14 @@ fn rename_objects(merge_module: &mut Module, rename_table: &HashMap<String, Stri
                 }
             }
         }
-        // MODULE.VARIANT_CODING.VAR_CHARACTERISTIC
-        for var_characteristic in &mut variant_coding.var_characteristic {
-            rename_item_list(&mut var_characteristic.criterion_name_list, rename_table);
+        // MODULE.VARIANT_CODING.VAR_CHARACTERISTIC: the name refers to an AXIS_PTS or CHARACTERISTIC
+        // (criterion_name_list refers to VAR_CRITERIONs, which are never renamed)
+        let var_characteristic_list = std::mem::take(&mut variant_coding.var_characteristic);
+        for mut var_characteristic in var_characteristic_list {
+            if let Some(newname) = rename_table.get(&var_characteristic.name) {
+                var_characteristic.name = newname.to_owned();
+            }
+            variant_coding.var_characteristic.push(var_characteristic);
         }
     }
 }
